@@ -394,7 +394,41 @@ func ruleDstFresh(c *Ctx) {
 			}
 		}
 		if rd == nil || assign == nil {
-			c.Unk(key, P.pos(fn.Pos()), "no value decode or mapassign found in the map reader")
+			// the per-entry work may live in a helper called from the entry loop
+			okH, found := false, false
+			for _, cs := range callsIn(fn) {
+				h := cs.Static
+				if h == nil || !P.isModuleFunc(h) || h.Blocks == nil || cs.Value() == nil {
+					continue
+				}
+				var hrd, hnw, hasg *ssa.Call
+				for _, hc := range callsIn(h) {
+					if hc.Iface != nil && isCodecIface(P, hc.Common.Value.Type()) && hc.Value() != nil {
+						switch hc.Iface.Name() {
+						case "Read":
+							hrd = hc.Value()
+						case "New":
+							hnw = hc.Value()
+						}
+					}
+					if hc.Static != nil && hc.Static.Name() == "mapassign" {
+						hasg = hc.Value()
+					}
+				}
+				if hrd == nil || hasg == nil {
+					continue
+				}
+				found = true
+				l := innermostLoop(fn, cs.Block)
+				okH = hnw != nil && l != nil && oncePerIteration(fn, l, cs.Instr) &&
+					hrd.Call.Args[1] == ssa.Value(hnw) && hasg.Call.Args[3] == ssa.Value(hnw) &&
+					recvPathOfValue(h, hnw.Call.Value, 0) == recvPathOfValue(h, hrd.Call.Value, 0) &&
+					innermostLoop(h, hnw.Block()) == nil && dominatesInstr(hnw, hrd) && dominatesInstr(hrd, hasg)
+				c.Check(okH, key, P.pos(cs.Instr.Pos()), "the per-entry helper is called once per entry; in it valueCodec.New(r) runs once and its result is what is decoded into and assigned", "the value decoded into is not allocated once per map entry: entries whose codec does not overwrite everything (nulls, pointers, slices, nested maps) inherit or share the previous entry's value")
+			}
+			if !found {
+				c.Unk(key, P.pos(fn.Pos()), "no value decode or mapassign found in the map reader")
+			}
 		} else {
 			l := innermostLoop(fn, rd.Block())
 			ok := nw != nil && l != nil && rd.Call.Args[1] == ssa.Value(nw) && assign.Call.Args[3] == ssa.Value(nw) &&
@@ -409,7 +443,30 @@ func ruleDstFresh(c *Ctx) {
 				keyRead = cs.Value()
 			}
 		}
-		if keyRead != nil {
+		keyFn := fn
+		if keyRead == nil {
+			// in a per-entry helper: a local of the helper is created per call, i.e. per entry
+			for _, cs := range callsIn(fn) {
+				h := cs.Static
+				if h == nil || !P.isModuleFunc(h) || h.Blocks == nil || innermostLoop(fn, cs.Block) == nil {
+					continue
+				}
+				for _, hc := range callsIn(h) {
+					if hc.Static != nil && hc.Static.Name() == "Read" && hc.Static.Signature.Recv() != nil && hc.Value() != nil && !strings.Contains(qualNameShort(hc.Static), "ReadBuf") {
+						keyRead, keyFn = hc.Value(), h
+					}
+				}
+			}
+		}
+		if keyRead != nil && keyFn != fn {
+			X, isAddr := addrOfVar(keyRead.Call.Args[len(keyRead.Call.Args)-1])
+			okKey := isAddr && typeKey(X) == "string"
+			if okKey {
+				cv := keyRead.Call.Args[len(keyRead.Call.Args)-1].(*ssa.Convert)
+				_, okKey = cv.X.(*ssa.Alloc)
+			}
+			c.Check(okKey, ct.Name+".Read/key-per-entry", P.pos(keyRead.Pos()), "the key is decoded into a string variable of the per-entry helper", "the map key is not decoded into a per-entry variable")
+		} else if keyRead != nil {
 			X, isAddr := addrOfVar(keyRead.Call.Args[len(keyRead.Call.Args)-1])
 			l := innermostLoop(fn, keyRead.Block())
 			okKey := isAddr && typeKey(X) == "string" && l != nil
